@@ -154,7 +154,9 @@ def fam_machine(v):
     mask = ORACLE_MASK.get(v.get('prop'), 0xFF)
     # (BUDGET_S: seconds of script enumeration per configuration)
     return 'machine_model.cpp', [['NS=3', 'LIMIT=2', 'ORACLES=%d' % mask, 'DEPTH=7', 'BUDGET_S=15'], ['NS=3', 'LIMIT=1', 'ORACLES=%d' % mask, 'DEPTH=7', 'BUDGET_S=10'],
-                                 ['NS=4', 'LIMIT=3', 'ORACLES=%d' % mask, 'DEPTH=6', 'BUDGET_S=10']]
+                                 ['NS=4', 'LIMIT=3', 'ORACLES=%d' % mask, 'DEPTH=6', 'BUDGET_S=10']] + (
+        # C05: the root reports a task status from its own update() / react() -- the active state still gets every callback of the cycle
+        [['NS=3', 'LIMIT=2', 'ORACLES=%d' % mask, 'DEPTH=7', 'BUDGET_S=10', 'ROOT_REPORTS']] if v.get('prop') == 'C05' else [])
 
 
 def fam_memory(v):
